@@ -46,11 +46,12 @@ func runC14(c *Ctx) {
 	p := c.P
 	// the available-blob list is fed by the transfer queue's watcher notifications: which path each notification
 	// names is decided in package tq (C06.R8), shared here
-	c.RulePrefix = "C06/"
+	saved := c.RulePrefix
+	c.RulePrefix = saved + "C06/"
 	if m := newTQModel(c); m != nil {
 		m.deliveries()
 	}
-	c.RulePrefix = ""
+	c.RulePrefix = saved
 	transferRecvChecked(c, "R3")
 	requestHeaderVerbatim(c, "R1")
 	filterStatusReportsCommandError(c, "R2")
